@@ -9,7 +9,11 @@ Shapes == { P("./x", "rel", 0, <<"x">>), P("x/y", "rel", 0, <<"x", "y">>), P("..
             P("https://example.com/r.git", "remote", 0, <<>>), P("git@github.com:o/r.git", "remote", 0, <<>>), P("github.com/o/r", "remote", 0, <<>>),
             P("docker-image://img:1", "url", 0, <<>>), P("oci-layout://./x", "url", 0, <<>>) }
 \* where the attribute is written: the main file, an included file (project directory inc/), an extended file in sub/
-Origins == {[o |-> "main", base |-> <<"r1", "r2", "proj">>], [o |-> "include", base |-> <<"r1", "r2", "proj", "inc">>], [o |-> "extends", base |-> <<"r1", "r2", "proj", "sub">>]}
+\* include2: a file included by the included file, from inc/deep/; include-sibling: in the included file, on a service that a sibling of
+\* the same file extends (both must resolve alike); extends-fork: the extended service is itself extended by a second service of the main file
+Origins == {[o |-> "main", base |-> <<"r1", "r2", "proj">>], [o |-> "include", base |-> <<"r1", "r2", "proj", "inc">>], [o |-> "extends", base |-> <<"r1", "r2", "proj", "sub">>],
+            [o |-> "include2", base |-> <<"r1", "r2", "proj", "inc", "deep">>], [o |-> "include-sibling", base |-> <<"r1", "r2", "proj", "inc">>],
+            [o |-> "extends-fork", base |-> <<"r1", "r2", "proj", "sub">>]}
 Home == <<"home", "verifuser">>
 VARIABLE cs
 Init == \E i \in 1..Len(Rows) : \E p \in Shapes : \E og \in Origins :
